@@ -11,6 +11,7 @@ KeyVal(r, n, col) == IF col = "size + 1" THEN IntV(r.snapshot[n].sizen + 1)
                      ELSE IF col = "2 * size" THEN IntV(2 * r.snapshot[n].sizen)               \* (a key that starts with a number is not a position)
                      ELSE IF col = "length(name) * 4" THEN IntV(Len(NameC(r.world, n)) * 4)      \* arithmetic over a numeric function of a text column
                      ELSE IF col = "day(modified)" THEN IntV(LocalTime(r.snapshot[n].mtime, 0).d)
+                     ELSE IF col = "dow(modified)" THEN IntV(LocalTime(r.snapshot[n].mtime, 0).dow)
                      ELSE IF col = "year(modified)" THEN IntV(LocalTime(r.snapshot[n].mtime, 0).y)
                      ELSE IF col = "blocks" THEN IntV(r.snapshot[n].blocksn)
                      ELSE IF col = "is_dir" THEN TextV(IF r.world.nodes[n].kind = "dir" THEN <<"t","r","u","e">> ELSE <<"f","a","l","s","e">>)
